@@ -118,6 +118,9 @@ add(
       tier=T, cost=940, exp_gb=6,
       unwindset=[("get_nonspace_bits", None, 66), ("ref_skip_ws", None, 16), ("windowed", None, 12), ("::skip_space", -1, 16), ("b_skip_space_cache_w2", None, 5)]),
 )
+add(H("k_block_step_head_arr", "main", ["C10"], ["parser::skip_container_loop", "parser::get_string_bits", "get_escaped_branchless_u64", "prefix_xor (fallback)", "u8x64::eq/bitmask"],
+      "every carry state (in-string, pending escape, counters < 2^20; no backslash outside strings) x every 64-byte block whose first three bytes are symbolic and the rest neutral ('x')",
+      cost=120, exp_gb=5, unwindset=[("ref_block_step", None, 66)]))
 for _n, _w in (("k_block_step_obj_w0", 0), ("k_block_step_arr_w16", 16), ("k_block_step_obj_w32", 32), ("k_block_step_arr_w48", 48)):
     add(H(_n, "main", ["C10"], ["parser::skip_container_loop", "parser::get_string_bits", "get_escaped_branchless_u64", "prefix_xor (fallback)", "u8x64::eq/bitmask"],
           "every carry state (in-string, pending escape, counters < 2^20; no backslash outside strings) x every 64-byte block that is symbolic in the "
@@ -411,6 +414,8 @@ for _k in range(1, 10):  # need = 10..16 did not finish within 20 minutes (64-bi
 
 # ---- experimental harnesses: kept in the harness files, runnable with --dev, not part of any claim ----
 EXPERIMENTAL = [
+    H("u_parse_string_inplace_verdict_n2", "main", [], ["util::string::parse_string_inplace"], "2 symbolic bytes + `n\"x` + real padding, strict, no \\u", stubs=[MAXEPU8], tier=T, timeout=2400, mem_gb=32, exp_gb=12,
+      unwindset=[("parse_string_inplace", None, 7), ("ref_decode_string", None, 7)]),
     H("u_owned_view_of_raw_array", "main", [], ["OwnedLazyValue::as_array (raw value)", "impl Deref for LazyArray", "LazyRaw::load", "LazyRaw::get_type"],
       "raw `[]`; the one-level parser cut to an empty array; no second reader", stubs=[CUT_LOAD, CUT_DROP], mem_gb=24, exp_gb=8, cost=60),
     H("u_owned_view_of_raw_object", "main", [], ["OwnedLazyValue::as_object (raw value)", "impl Deref for LazyObject", "LazyRaw::load", "LazyRaw::get_type"],
